@@ -17,6 +17,13 @@ Operations (JSON lists)
     ["F", kind]                             the next get fails when it consults the source;
                                             kind "io" (OSError) | "nf" (TemplateNotFoundError)
 
+Generator flags (switched off by active known findings through `disabled`; everything is
+generated when none is disabled, exclusions are counted in `Result.excluded`)
+    "globals-vary"     when disabled, every key is always fetched with the same globals
+    "async-namespace"  when disabled, async gets are never combined with a namespace
+    "delete-stat"      when disabled, a history stops before a get (auto_reload on) of a key
+                       whose resident snapshot came from a file that has been deleted
+
 Template text is ``<name>@<version>[<namespace>]<layer>|g={{ g }}|e={{ e }}`` so that the
 template served, its version, the namespace it was loaded for, the layer it came from
 and the globals it was rendered with are all visible in the output.
@@ -344,11 +351,11 @@ class Model:
                     outs.append((("err", fault), touched, "fault-on-hit"))
         if need:
             if fault or cur is None:
-                outs.append((("err", fault or "nf"), cache, "fail"))
+                outs.append((("err", fault or "nf"), cache, "fail-resident" if snap is not None else "fail-miss"))
                 if snap is not None:
                     touched = cache.copy()
                     touched.move_to_end(key)
-                    outs.append((("err", fault or "nf"), touched, "fail"))
+                    outs.append((("err", fault or "nf"), touched, "fail-resident"))
             else:
                 nxt = cache.copy()
                 tag = "reload" if snap is not None else "miss"
@@ -438,11 +445,7 @@ def violates(case: dict[str, Any], disabled: frozenset[str]) -> list[str]:
         is_async(op) and any(ns is not None for _n, ns, _g in gets_of(op)) for op in case["h"]
     ):
         hit.append("async-namespace")
-    if "delete-stat" in disabled and case["reload"] and case["loader"] != "dict" and any(
-        op[0] == "D" for op in case["h"]
-    ):
-        hit.append("delete-stat")
-    return hit
+    return hit  # "delete-stat" is decided dynamically in C14._run (it depends on residency)
 
 
 def normalise(case: dict[str, Any], disabled: frozenset[str]) -> dict[str, Any]:
@@ -464,8 +467,6 @@ def normalise(case: dict[str, Any], disabled: frozenset[str]) -> dict[str, Any]:
                     spec = list(op[i])
                     spec[2] = seen.setdefault(key_of(spec[0], spec[1]), spec[2])
                     op[i] = spec
-    if "delete-stat" in disabled and case["reload"] and case["loader"] != "dict":
-        hist = [["M", op[1], op[2]] if op[0] == "D" else op for op in hist]
     return {**case, "h": hist}
 
 
@@ -596,13 +597,15 @@ class C14(Prop):
         try:
             if case["loader"] != "dict":
                 root = tempfile.mkdtemp(prefix="c14-", dir=_TMP_PARENT)
-            self._run(case, root, res)
+            self._run(case, root, res, disabled)
         finally:
             if root is not None:
                 shutil.rmtree(root, ignore_errors=True)
         return res
 
-    def _run(self, case: dict[str, Any], root: str | None, res: Result) -> None:  # noqa: PLR0912, PLR0915
+    def _run(  # noqa: PLR0912, PLR0915
+        self, case: dict[str, Any], root: str | None, res: Result, disabled: frozenset[str] = frozenset()
+    ) -> None:
         kind = case["loader"]
         world = World(case, root)
         model = Model(case)
@@ -665,6 +668,14 @@ class C14(Prop):
             if mode == "t" and kind != "dict":
                 mode = "a"
             modename = "sync" if mode == "s" else "async"
+            if "delete-stat" in disabled and model.reload and any(
+                (snap := cand.get(key_of(name, ns))) is not None and snap[0] == "F"
+                and model.cur.get(("F", key_of(name, ns))) is None
+                for name, ns, _g in gets for cand in model.cands
+            ):
+                # freshness check of a resident snapshot whose file has been deleted
+                res.excluded.append("delete-stat")
+                break
             chains = model.chains(gets)
             model.armed = None
             res.evaluations += len(gets)
@@ -778,8 +789,12 @@ class C14(Prop):
         if ans != (ns or "-"):
             return "namespace", f"namespace-leak:{mode}:{kind}", what
         if exp[0] == "err":
-            if tag == "fail" and exp[1] == "nf":
-                return "lru", f"lru-order:stale-survivor:{kind}", what + " (served although deleted and not resident)"
+            if tag == "fail-miss":
+                return ("lru", f"lru-order:stale-survivor:{kind}",
+                        what + " (served from the cache although the model has evicted this key)")
+            if tag == "fail-resident":
+                return ("stale", f"stale:auto-reload:{mode}:{kind}",
+                        what + " (resident snapshot is out of date and its source cannot be loaded)")
             return "missing-error", f"missing-error:{exp[1]}:{mode}:{kind}", what
         em = BODY_RE.match(exp[1])
         assert em is not None
